@@ -8,6 +8,12 @@ F_DUMP, F_STATS, F_EOF, F_CONFIG, F_LSAN = 1, 2, 4, 8, 16
 SERVICE_TYPES = ('login', 'login-ipr', 'dronecheck', 'combined')
 
 
+def rebase_conf(conf, b):
+    """A configuration text recorded in a replay file names the module directory of the build it was made with; builds are pruned, the current one serves."""
+    import re
+    return re.sub(r'"[^"\n]*/build/[0-9a-f]{16}/(mods-[a-z]+|stubs)"', lambda m: '"%s/%s"' % (b, m.group(1)), conf)
+
+
 def conf_text(moddir, services=(), timeout=0, rules=(), modules=('iauth', 'iauth_xquery', 'iauth_class', 'vh_driver'), logs=None, extra=''):
     """services: sequence of (name, type); rules: sequence of (name, {key: value})."""
     o = ['core {', '  library_path ( "%s" )' % moddir, '  modules ( %s )' % ', '.join(modules), '}']
@@ -54,6 +60,7 @@ class Server:
         self.b = builddir or _build.build()
         self.dir = tempfile.mkdtemp(prefix='e1-', dir=os.path.join(self.b))
         self.conf_path = os.path.join(self.dir, 'iauthd.conf')
+        conf = rebase_conf(conf, self.b)
         with open(self.conf_path, 'w') as f:
             f.write(conf)
         for name, text in (files or {}).items():
